@@ -26,4 +26,7 @@ def update {β : Type} (f : Nat → β) (k : Nat) (v : β) : Nat → β := fun j
 /-- `enumerate(xs)` when the elements of `xs` are identified with their indices -/
 def enumerateRange (n : Nat) : List (Nat × Nat) := (List.range n).map (fun i => (i, i))
 
+/-- `enumerate(l)` -/
+def enumerate {α : Type} (l : List α) : List (Nat × α) := l.zipIdx.map (fun p => (p.2, p.1))
+
 end OdeVerif.Py
